@@ -313,6 +313,9 @@ func (c *Ctx) ownership(r *Report, rule, structName, field string, allowed map[s
 		key := fmt.Sprintf("%s.%s/%s", structName, field, fn)
 		if reason, ok := allowed[fn]; ok {
 			r.ok(rule, key, fmt.Sprintf("%v — %s", kinds, reason))
+		} else if owner, ok := c.privateHelperOf(fn, allowed, 0); ok {
+			// a helper that only the owners call is part of them (the same code, moved into a function of its own)
+			r.ok(rule, key, fmt.Sprintf("%v — private helper of %s (called from nowhere else, never used as a value)", kinds, owner))
 		} else {
 			pos := ""
 			for _, a := range c.fieldAccesses() {
@@ -324,4 +327,74 @@ func (c *Ctx) ownership(r *Report, rule, structName, field string, allowed map[s
 			r.bad(rule, key, fmt.Sprintf("%s accesses %s.%s (%v) but is not one of the functions that own it: %v", fn, structName, field, kinds, sortedKeys(allowed)), pos)
 		}
 	}
+}
+
+// callersByName: for every module function, the names of the functions that
+// call it statically; valueUse marks functions that are also used as values
+// (stored, passed, bound) — those can be reached from anywhere.
+func (c *Ctx) callersByName() (callers map[string]map[string]bool, valueUse map[string]bool) {
+	if c.callerCache != nil {
+		return c.callerCache, c.valueUseCache
+	}
+	callers, valueUse = map[string]map[string]bool{}, map[string]bool{}
+	c.vmModel() // role names for closures and helper methods
+	for _, f := range c.allFuncs() {
+		from := ssaFuncName(f)
+		for _, b := range f.Blocks {
+			for _, ins := range b.Instrs {
+				if ci, ok := ins.(ssa.CallInstruction); ok {
+					if callee := ci.Common().StaticCallee(); callee != nil && inRepo(callee) {
+						n := ssaFuncName(callee)
+						if callers[n] == nil {
+							callers[n] = map[string]bool{}
+						}
+						callers[n][from] = true
+					}
+				}
+				for _, op := range ins.Operands(nil) {
+					fn, ok := (*op).(*ssa.Function)
+					if !ok || !inRepo(fn) {
+						continue
+					}
+					if ci, isCall := ins.(ssa.CallInstruction); isCall && ci.Common().Value == ssa.Value(fn) {
+						continue
+					}
+					if _, isClosure := ins.(*ssa.MakeClosure); isClosure && fn.Parent() == f {
+						continue // a closure made by its parent: its uses are the parent's business
+					}
+					valueUse[ssaFuncName(fn)] = true
+				}
+			}
+		}
+	}
+	c.callerCache, c.valueUseCache = callers, valueUse
+	return
+}
+
+// privateHelperOf: fn is called only by functions of `allowed` (or by private
+// helpers of those), and is never used as a value.
+func (c *Ctx) privateHelperOf(fn string, allowed map[string]string, depth int) (string, bool) {
+	if depth > 3 {
+		return "", false
+	}
+	callers, valueUse := c.callersByName()
+	if valueUse[fn] || len(callers[fn]) == 0 {
+		return "", false
+	}
+	owner := ""
+	for _, from := range sortedKeys(callers[fn]) {
+		if from == fn {
+			continue
+		}
+		if _, ok := allowed[from]; ok {
+			owner = from
+			continue
+		}
+		if o, ok := c.privateHelperOf(from, allowed, depth+1); ok {
+			owner = o
+			continue
+		}
+		return "", false
+	}
+	return owner, owner != ""
 }
